@@ -17,7 +17,7 @@ import verdict
 
 PROP = "C09"
 LEVEL = "exploration"
-RULE = ("runs of 2-16 threads x 200-2000 records of 1-4096 bytes through (1) one logger on stdout_mt, (2) two "
+RULE = ("runs of 2-16 threads x 200-2000 records of 1-4096 (a third of the runs: 1-12000) bytes through (1) one logger on stdout_mt, (2) two "
         "logger types sharing stdout_mt, (3) sequence<stdout_mt, StdErrThreaded>, (4) StdErrThreaded, with seeded "
         "delays between statements and inside the stream buffer's write path, on a plain build (overlap detector + "
         "offline capture checker), gcc/clang ThreadSanitizer builds and (thorough) an ASan build; "
@@ -39,6 +39,9 @@ def plan(tier, seed):
             threads = rng.choice([2, 3, 4, 8, 12, 16])
             records = rng.choice([200, 400, 800]) if tag != "plain" else rng.choice([200, 500, 1000, 2000])
             maxlen = rng.choice([16, 256, 4096])
+            if i % 3 == 0:
+                # records longer than a page / a typical stdio buffer (block-wise writers show here)
+                maxlen, records, threads = 12000, 200, min(threads, 8)
             delay = rng.choice([0, 50, 200, 500])
             runs.append((tag, topo, threads, records, maxlen, rng.randrange(1, 10 ** 9), delay, 0))
 
